@@ -32,6 +32,7 @@ EXPLANATION = (
     "six branch predicates and four arithmetic operations, read from the AST and evaluated on an integer grid, equal the "
     "reference semantics; each handler's dataflow signature (which operand field flows to which write) equals "
     "reference/classical_semantics.json; the reported fault line is the counter read before execution."
+    ' C04.M: the memory primitives (Arrays, RegisterGroup, SharedMemory) store exactly once what they are given and declare fresh arrays. C04.F: inside an executor method no state effect precedes an explicit raise/assert on any path (a fault leaves the state untouched). C04.Z: no truthiness test on an int-typed value.'
 )
 LEVEL_TEXT = (
     "Static analysis, partial: per-handler and per-instruction-class clauses (dispatch, PC-once, None guards, predicates, operand-role "
